@@ -6,7 +6,7 @@ use crate::codec;
 use crate::ix::build as b;
 use crate::ix::Ix;
 use crate::report::*;
-use crate::svm::{Acct, Bank};
+use crate::svm::{self, Acct, Bank};
 use crate::world::*;
 use serde_json::json;
 use solana_program::pubkey::Pubkey;
@@ -160,7 +160,7 @@ pub fn run(tier: Tier, seed: u64) -> i32 {
     let mut rep = Report::new("C15", tier, seed);
     rep.exhaustive = true;
     rep.level = "fault_enumeration";
-    rep.rule = "enumeration: for every fund-moving instruction (swap x2, two-hop x2, increase x3, decrease x2, reposition, collect fees x2, collect reward x2, collect protocol fees x2, set-emissions x2, initialize reward x2, update-fees, close/reset/lock/transfer/bundle family, pool-level setters) a golden invocation that must succeed, then for every account slot that is bound by the property (pool, vaults, tick arrays, oracle, position, mints, reward vault, token/memo/system/ATA programs, config, lock config, bundle) every other account of the same kind found in the bank is substituted (supplemental tick arrays of swap_v2 included; vault <- every other token account of the same mint incl. other pools' vaults, the pool's own reward vaults and user accounts; tick array / oracle / position <- those of other pools; mint <- other mints; program <- other executables ...): the instruction must fail. User-owned token account slots are substituted with accounts of another mint (must fail). Every token account / mint slot is also given a byte-identical twin owned by a program that is not a token program (random id; ids sharing the last byte with Token / Token-2022): must fail. Pair substitutions: position + its token account of a position in another pool (same owner), once holding liquidity and once empty (early-return paths for zero liquidity must not skip the pool check); second leg of a two-hop replaced by the first pool. v1 instructions (increase, decrease, swap, collect fees, collect protocol fees) on a pool over two extension-less Token-2022 mints with either token program in the slot must fail. distinct = (instruction, slot, kind of substitute)".into();
+    rep.rule = "enumeration: for every fund-moving instruction (swap x2, two-hop x2, increase x3, decrease x2, reposition, collect fees x2, collect reward x2, collect protocol fees x2, set-emissions x2, initialize reward x2, update-fees, close/reset/lock/transfer/bundle family, pool-level setters) a golden invocation that must succeed, then for every account slot that is bound by the property (pool, vaults, tick arrays, oracle, position, mints, reward vault, token/memo/system/ATA programs, config, lock config, bundle) every other account of the same kind found in the bank is substituted (supplemental tick arrays of swap_v2 included; vault <- every other token account of the same mint incl. other pools' vaults, the pool's own reward vaults and user accounts; tick array / oracle / position <- those of other pools; mint <- other mints; program <- other executables ...): the instruction must fail. User-owned token account slots are substituted with accounts of another mint (must fail). Every program slot is also given an attacker's program whose id shares the last byte (or the first two and last two bytes) with the expected one and whose CPI would succeed: must fail. Every token account / mint slot is also given a byte-identical twin owned by a program that is not a token program (random id; ids sharing the last byte with Token / Token-2022): must fail. Pair substitutions: position + its token account of a position in another pool (same owner), once holding liquidity and once empty (early-return paths for zero liquidity must not skip the pool check); second leg of a two-hop replaced by the first pool. v1 instructions (increase, decrease, swap, collect fees, collect protocol fees) on a pool over two extension-less Token-2022 mints with either token program in the slot must fail. distinct = (instruction, slot, kind of substitute)".into();
     rep.assumptions = vec!["the bound/free classification of slots is written in the harness from the property statement".into(), "substitutes are the accounts present in the catalogue world (6 pools over shared and disjoint mints, 2 configs, reward vaults holding pool mints)".into()];
     let mut acc = Acc::default();
     let flavours = tier.pick(1, 3);
@@ -210,6 +210,33 @@ pub fn run(tier: Tier, seed: u64) -> i32 {
                 forged.insert(m.key, twins);
             }
         }
+        // an attacker's own programs whose ids resemble the expected program's (same last byte, same first and last
+        // byte): executable accounts; a CPI into them succeeds without doing anything
+        let mut rogue: std::collections::BTreeMap<Pubkey, Vec<(Pubkey, &'static str)>> = Default::default();
+        for g in &gs {
+            for m in &g.ix.metas {
+                if rogue.contains_key(&m.key) {
+                    continue;
+                }
+                let Some(a) = bank.get(&m.key).cloned() else { continue };
+                if !a.executable {
+                    continue;
+                }
+                let genuine = m.key.to_bytes();
+                let mut twins = vec![];
+                for (what, keep) in [("program_id_shares_last_byte", vec![31usize]), ("program_id_shares_first_and_last_bytes", vec![0, 1, 30, 31])] {
+                    let mut id: [u8; 32] = bs.w.new_key().to_bytes();
+                    for i in keep {
+                        id[i] = genuine[i];
+                    }
+                    let id = Pubkey::new_from_array(id);
+                    bank.set(id, Acct { lamports: a.lamports, data: a.data.clone(), owner: a.owner, executable: true });
+                    svm::register_rogue_program(id);
+                    twins.push((id, what));
+                }
+                rogue.insert(m.key, twins);
+            }
+        }
         // index the bank by kind
         let all: Vec<(Pubkey, Kind)> = bank.accts.iter().map(|(k, a)| (*k, kind_of(a))).collect();
         for g in &gs {
@@ -238,6 +265,17 @@ pub fn run(tier: Tier, seed: u64) -> i32 {
                 seen_keys.push((m.name, m.key));
                 let Some(acct) = bank.get(&m.key) else { continue };
                 let k = kind_of(acct);
+                if let Some(twins) = rogue.get(&m.key) {
+                    for (tk, what) in twins {
+                        let mut i = g.ix.clone();
+                        for x in i.metas.iter_mut() {
+                            if x.name == m.name {
+                                x.key = *tk;
+                            }
+                        }
+                        subs.push((m.name.to_string(), format!("rogue_{what}"), i));
+                    }
+                }
                 if let Some(twins) = forged.get(&m.key) {
                     for (tk, what) in twins {
                         let mut i = g.ix.clone();
@@ -402,6 +440,7 @@ pub fn run(tier: Tier, seed: u64) -> i32 {
     rep.floor("rejected:position_of_another_pool_with_its_token", 30);
     rep.floor("rejected:empty_position_of_another_pool_with_its_token", 30);
     rep.floor("rejected:token_account_or_mint_owner_shares_last_byte_with_token_2022", 100);
+    rep.floor("rejected:rogue_program_id_shares_last_byte", 100);
     rep.floor("rejected:another_program", 100);
     rep.floor("rejected:oracle_of_another_pool", 5);
     rep.finish()
